@@ -818,12 +818,14 @@ def check_decision(rows, atom_of, expected, ret_of=None):
 def _tracked_bools(fn):
     """User-named bool locals that receive at least one constant assignment (materialised conditions)."""
     out = set()
+    inl_ret = set(fn.raw.get("inl_ret", []))
     for n, (ty, name) in enumerate(fn.locals):
         if ty != "bool" or n <= fn.argc:
             continue
         ds = fn.defs().get(n, [])
         consts = [d for d in ds if d[2] == "assign" and d[3][4][0] == "use" and d[3][4][1][0] == "k" and isinstance(d[3][4][1][2], bool)]
-        if name:
+        if name or n in inl_ret:
+            # user-named flags, and the return place of an inlined helper (`return false` on several paths)
             if consts:
                 out.add(n)
         else:
@@ -854,12 +856,16 @@ def _tracked_enums(fn):
     """User-named locals every whole-definition of which is an enum-variant aggregate (e.g. an Option built as
     Some(..)/None on different branches)."""
     out = set()
+    inl_ret = set(fn.raw.get("inl_ret", []))
     for n, (ty, name) in enumerate(fn.locals):
-        if not name or n <= fn.argc:
+        if (not name and n not in inl_ret) or n <= fn.argc:
             continue
         ds = [d for d in fn.defs().get(n, []) if (d[2] == "assign" and not d[3][3][1]) or d[2] == "call"]
-        if len(ds) >= 2 and all(d[2] == "assign" and d[3][4][0] == "agg" and d[3][4][1] == "adt" and _variant_index(fn.prog, d[3][4][2]) is not None for d in ds):
+        is_var = lambda d: d[2] == "assign" and d[3][4][0] == "agg" and d[3][4][1] == "adt" and _variant_index(fn.prog, d[3][4][2]) is not None
+        if len(ds) >= 2 and all(is_var(d) for d in ds):
             out.add(n)
+        elif n in inl_ret and len(ds) >= 2 and any(is_var(d) for d in ds):
+            out.add(n)      # return place of an inlined helper: known on the paths that build a variant, unknown on the others
     return out
 
 
